@@ -475,7 +475,7 @@ func main() {
 	var v02, v05 []violation
 	evals, distinct := 0, 0
 	var samples []interface{}
-	var coqCases, rtCases []string
+	var coqCases, rtCases, pcCases []string
 	seen := map[string]bool{}
 	builds := 0
 	t0 := time.Now()
@@ -687,13 +687,22 @@ func main() {
 				coqCases = append(coqCases, fmt.Sprintf("{| mc_schema := %s; mc_doc := %s; mc_gen := %s; mc_ref := %s |}",
 					inlineCoq(defs[c.Def], defs, 0), jsonCoq(d), coqpp.Bool(genOK), coqpp.Bool(refOK)))
 			}
+			// ... and the property-count cases (Sem/PropCount.v): an object of the fragment that also carries minProperties / maxProperties
+			if sd := defs[c.Def]; sd.Kind == gs.KObject && (sd.MinProps != nil || sd.MaxProps != nil) && len(pcCases) < 600 && jsonInCoqFragment(d) {
+				plainObj := *sd
+				plainObj.MinProps, plainObj.MaxProps = nil, nil
+				if plainObj.InCoqFragment() && closedFragment(&plainObj, defs, 0) {
+					pcCases = append(pcCases, fmt.Sprintf("{| pc_schema := %s; pc_min := %s; pc_max := %s; pc_doc := %s; pc_gen := %s; pc_ref := %s |}",
+						inlineCoq(&plainObj, defs, 0), coqpp.OptZ(sd.MinProps), coqpp.OptZ(sd.MaxProps), jsonCoq(d), coqpp.Bool(genOK), coqpp.Bool(refOK)))
+				}
+			}
 			if len(samples) < 3 && !refOK && results[i].Verdict == "validate_err" {
 				samples = append(samples, map[string]interface{}{"definition": defs[c.Def].JSON(), "document": c.Doc, "generated": results[i].Verdict, "reference": refMsg})
 			}
 		}
 		_ = os.RemoveAll(dir)
 	}
-	writeCoq(*out, coqCases)
+	writeCoq(*out, coqCases, pcCases)
 	writeCoqRT(*out, rtCases)
 	for _, x := range []struct {
 		name  string
@@ -707,7 +716,7 @@ func main() {
 		rep := map[string]interface{}{
 			"evaluations": evals, "distinct_nontrivial": distinct,
 			"rule":    "specs of ~24 generated definitions (objects with required/optional properties, arrays, maps, aliases, references; every validation keyword; integer formats incl. unsigned) plus fixed special definitions (allOf with inline member, additionalProperties next to properties, lone minProperties / maxProperties, arrays whose item constraints exclude the zero value, unsigned bounds with asymmetric exclusivity); documents per definition: a valid one, and single deviations at every node: boundary values of every constraint, zero values, wrong types, missing properties, unknown properties. The generated models are compiled and run. Distinct by (spec, definition, document); every document but the first of a definition is a deviation, hence non-trivial.",
-			"samples": samples, "coverage": cov, "violations": vs, "builds": builds, "model_cases": len(coqCases), "rt_model_cases": len(rtCases), "wall_s": time.Since(t0).Seconds(),
+			"samples": samples, "coverage": cov, "violations": vs, "builds": builds, "model_cases": len(coqCases) + len(pcCases), "count_model_cases": len(pcCases), "rt_model_cases": len(rtCases), "wall_s": time.Since(t0).Seconds(),
 		}
 		b, _ := json.MarshalIndent(rep, "", " ")
 		_ = os.WriteFile(filepath.Join(*out, x.name), b, 0o644)
@@ -992,7 +1001,7 @@ func inlineCoq(s *gs.Schema, defs map[string]*gs.Schema, depth int) string {
 	return c.Coq()
 }
 
-func writeCoq(out string, cases []string) {
+func writeCoq(out string, cases, pcases []string) {
 	shards := 4
 	for sh := 0; sh < shards; sh++ {
 		var part []string
@@ -1002,9 +1011,17 @@ func writeCoq(out string, cases []string) {
 			}
 		}
 		var sb bytes.Buffer
-		sb.WriteString("From GS Require Import Base.Str Base.Json Sem.Schema Sem.SchemaRun.\nDefinition cases : list mcase := [\n")
+		sb.WriteString("From GS Require Import Base.Str Base.Json Sem.Schema Sem.PropCount Sem.SchemaRun.\nDefinition cases : list mcase := [\n")
 		sb.WriteString(strings.Join(part, ";\n"))
-		sb.WriteString("\n].\nDefinition M := Eval vm_compute in run_mc cases.\nPrint M.\n")
+		sb.WriteString("\n].\nDefinition pcases : list pcase := [\n")
+		var ppart []string
+		for i, c := range pcases {
+			if i%shards == sh {
+				ppart = append(ppart, c)
+			}
+		}
+		sb.WriteString(strings.Join(ppart, ";\n"))
+		sb.WriteString("\n].\nDefinition M := Eval vm_compute in (run_mc cases ++ run_pc pcases).\nPrint M.\n")
 		_ = os.WriteFile(filepath.Join(out, fmt.Sprintf("cases_%02d.v", sh)), sb.Bytes(), 0o644)
 	}
 }
